@@ -14,7 +14,7 @@ import json, os, random, re
 
 from lib.common import *
 
-CODE_NAMES = {1: "abort-verdict", 2: "illegal-wait", 3: "retry-count"}
+CODE_NAMES = {1: "abort-verdict", 2: "illegal-wait", 3: "retry-count", 4: "dial-classification"}
 MS = 1000000
 DEF_MIN, DEF_MAX = 100 * MS, 15000 * MS
 
@@ -45,7 +45,7 @@ def conn_cases(rng, n):
     for i in range(n):
         mn = rng.choice([1, 2, 3, 5]) * MS
         cs.append({"id": "conn%d" % i, "min": mn, "max": rng.choice([mn, 2 * mn, 7 * mn, 10 * mn + 1, 40 * MS]),
-                   "fails": rng.randrange(0, 9), "status": rng.choice([0, 0, 408, 429, 500, 502, 503, 504]),
+                   "fails": rng.randrange(0, 9), "status": rng.choice([0, 0, 408, 429, 500, 502, 503, 504, 400, 401, 403, 404, 409, 501]),
                    "via": rng.choice(["connect", "listen"])})
     for c in cs:
         c.setdefault("cancel_at", 0)
@@ -95,6 +95,8 @@ def monitor_conn(c, o):
     if o.get("panic"):
         return {"sig": "reconnect-panic", "why": "connect loop failed: " + o["panic"]}
     mn, mx = eff(c["min"], c["max"])
+    if c["status"] in (409, 501):
+        return None         # whether such an answer is worth a retry is the implementation's choice: compared with the model only
     fatal = c["status"] in (400, 401, 403, 404)
     arr = o["arrivals"]
     if fatal and c["fails"] > 0:
@@ -186,6 +188,10 @@ def run_once(rng, wd, quick, tag="bo"):
     for c, o in zip(ccs, couts):
         if not o.get("panic") and o["outcome"] != "timeout":
             items.append(coq_case_conn(c, o)); owner.append(("conn", c, o))
+            if not c["cancel_at"]:
+                # which failures are retried: the model's classification decides how many dials there are and how the loop ends
+                items.append("BClass %d %d%%nat %d%%nat %s" % (c["status"], c["fails"], len(o["arrivals"]), coq_bool(o["outcome"] == "connected")))
+                owner.append(("conn", c, o))
     dis = []
     for si in range(0, len(items), 400):
         rc, out = coq_eval(wd, "Cases_backoff_%s_%d" % (tag, si), cases_file(items[si:si + 400]))
